@@ -330,6 +330,7 @@ func (l *log) GetByTime(start time.Time) (message.Message, error) {
 	l.readersMu.RLock()
 	defer l.readersMu.RUnlock()
 
+	headEmpty := false
 	for i := len(l.readers) - 1; i >= 0; i-- {
 		rdr := l.readers[i]
 
@@ -345,6 +346,7 @@ func (l *log) GetByTime(start time.Time) (message.Message, error) {
 			if i == 0 {
 				return message.Invalid, err
 			}
+			headEmpty = true
 		case index.ErrTimeBeforeStart:
 			// not in this segment, try the rest
 			if i == 0 {
@@ -353,6 +355,11 @@ func (l *log) GetByTime(start time.Time) (message.Message, error) {
 		case index.ErrTimeAfterEnd:
 			// time is between end of this and begin next
 			if i < len(l.readers)-1 {
+				if headEmpty && i == len(l.readers)-2 {
+					// the next segment is the head, which was empty when it was looked at;
+					// a publish may have landed in it since, with any time
+					return message.Invalid, errTimeNotFound
+				}
 				nextRdr := l.readers[i+1]
 				msg, err := nextRdr.Get(message.OffsetOldest)
 				if err == index.ErrOffsetIndexEmpty {
